@@ -574,7 +574,7 @@ def run(ctx):
         ok = False
         if len(L) == 1:
             sty, src = loop_source(f, L[0])
-            ok = sty == "std::slice::IterMut<'_, semantic::types::ExternValue>" and any(g.kind == 'reject' and g.pred[0] == 'fails' and find_calls(g.pred, 'resolve_grammar_type') for g in guards_of(f))
+            ok = sty == "std::slice::IterMut<'_, semantic::types::ExternValue>" and any(g.kind == 'reject' and g.pred[0] in ('fails', 'is_none') and find_calls(g.pred, 'resolve_grammar_type') for g in guards_of(f))
         ctx.ob(['C10', 'C15'], 'R-ITER', 'REV|every-extern-value-resolved', ok, 'every extern value\'s type is resolved after all types; failure to resolve is an error', loc(f.span))
 
 
